@@ -630,6 +630,10 @@ func c12Coherence(rep *report, sink *checkCaseSink, s *schemeOps) {
 			}
 			key, kerr := s.key(p, prm)
 			rc := recognise(s.name, h)
+			if kerr != nil && err == nil && pan == nil {
+				rep.fail(map[string]interface{}{"scheme": s.name, "hash": h, "password": p}, "Check fails too (Key rejects the parameters Params extracted: "+kerr.Error()+")", "Check returns nil",
+					"Check verifies a hash whose extracted parameters Key rejects")
+			}
 			if kerr != nil || rc.skip {
 				continue
 			}
